@@ -848,3 +848,98 @@ def rule_alt_relink(ctx, rep, config="c-lib"):
         else:
             rep.violation("R13-relink", key, "an alternative kept by the pruning is linked to something else than the list of alternatives kept so far: alternatives that were "
                           "dropped come back into the result, kept ones in between are lost", where=s.where(), witness=[s.where()])
+
+
+def rule_marks_final(ctx, rep, config="c-lib"):
+    rep.rule("R13-marks-final", "make_parse decides the release of the single NIL / ERROR node by their `used' mark: the test comes after everything that can change "
+                                "the mark -- no store to the mark and no call of a function that (transitively) stores to it is reachable from the test (the costing pass "
+                                "clears the mark of a node that is only in dropped alternatives and relies on this release)")
+    from .r14 import path_exists
+    p = ctx.prog(config)
+    g = p.fn("make_parse")
+    rep.cover(p, [g.name])
+    writers = {}
+    for f in p.m.defined():
+        for s in f.all_insts():
+            if s.op == "store":
+                lf = resolve_addr(f, s.ops[1]).last_field()
+                if lf in ("yaep_nil.used", "yaep_error.used"):
+                    writers.setdefault(lf, set()).add(f.name)
+    n = 0
+    for l in g.all_insts():
+        if l.op != "load":
+            continue
+        lf = resolve_addr(g, l.ops[0]).last_field()
+        if lf not in ("yaep_nil.used", "yaep_error.used"):
+            continue
+        # the load decides a release: a branch on it controls a call through parse_free
+        uses = [u for u in g.uses().get(l.id, []) if u.op == "icmp"]
+        if not uses:
+            continue
+        n += 1
+        key = "make_parse/%s-test-is-final" % lf.split(".")[0][5:]
+        bad = None
+        for s in g.all_insts():
+            if s.op == "store" and resolve_addr(g, s.ops[1]).last_field() == lf and path_exists(g, l, s, []):
+                bad = (s, "the mark is stored at %s" % s.where())
+        for c in g.calls():
+            if bad:
+                break
+            tg = set()
+            for t in p.call_targets(g, c):
+                tg |= set(p.reach(t)) | set([t])
+            w = tg & writers.get(lf, set())
+            if w and path_exists(g, l, c, []):
+                bad = (c, "%s (which reaches %s) is called" % (c.callee or "a function", ", ".join(sorted(w))))
+        if bad:
+            rep.violation("R13-marks-final", key, "the release of the single %s node is decided at %s, but afterwards %s and can change the mark: a node that the costing "
+                          "pass drops from the tree is never released (or a node marked later is released while the tree refers to it)" % (
+                              "NIL" if "nil" in lf else "ERROR", l.where(), bad[1]), where=bad[0].where(), witness=[l.where(), bad[0].where()])
+        else:
+            rep.ok("R13-marks-final", key, sample={"test": l.where(), "writers": sorted(writers.get(lf, []))})
+    rep.floor("R13-marks-final", "release tests of the single nodes", n, 2)
+
+
+def rule_min_cost_domain(ctx, rep, config="c-lib"):
+    rep.rule("R13-mincost", "prune_to_minimal keeps the minimal cost of the alternatives seen so far in a variable that is compared with costs only: no comparison of "
+                            "it with a constant (every value, 0 included, is a legal cost -- a sentinel inside the cost domain makes an alternative of that cost look like "
+                            "`none seen yet'); the first alternative is recognised by its identity")
+    p = ctx.prog(config)
+    f = p.fn("prune_to_minimal")
+    rep.cover(p, [f.name])
+
+    def is_cost_load(op):
+        i = f.inst(_strip_int(f, op))
+        return i is not None and i.op == "load" and resolve_addr(f, i.ops[0]).root == ("a", 1) and not resolve_addr(f, i.ops[0]).steps
+
+    mins = set()
+    for c in f.all_insts():
+        if c.op != "icmp":
+            continue
+        for (x, y) in ((0, 1), (1, 0)):
+            if is_cost_load(c.ops[x]):
+                o = f.inst(_strip_int(f, c.ops[y]))
+                if o is not None and o.op == "phi":
+                    mins.add(o.id)
+    if not mins:
+        raise AnalysisBroken("R13-mincost: no comparison of the running minimum with *cost found in prune_to_minimal")
+    n = 0
+    for m in sorted(mins):
+        for c in f.uses().get(m, []):
+            if c.op != "icmp":
+                continue
+            n += 1
+            other = c.ops[1] if _strip_int(f, c.ops[0]).get("v") == m else c.ops[0]
+            key = "prune_to_minimal/minimum-compared-with-costs#%d" % n
+            if const_int(other) is not None:
+                rep.violation("R13-mincost", key, "the running minimum is compared with the constant %d: an alternative whose cost is %d is taken for `no alternative seen "
+                              "yet' and replaced by the next one whatever that costs (the tree kept is not minimal; ties at that cost are dropped)" % (
+                                  const_int(other), const_int(other)), where=c.where(), witness=[c.where()])
+            else:
+                rep.ok("R13-mincost", key, sample={"compare": c.where()})
+    rep.floor("R13-mincost", "comparisons of the running minimum", n, 2)
+
+
+def _strip_int(f, op):
+    from ..model import strip_int_casts
+    return strip_int_casts(f, op)
